@@ -35,6 +35,8 @@ pub struct Lock {
     pub fault_tok: Option<usize>,
     /// check R5 (file and line of the diagnostic) on this case
     pub r5: bool,
+    /// first and last line of the element under test (located faults, one token per line)
+    pub elem_lines: Option<(u32, u32)>,
 }
 
 pub enum V {
@@ -164,6 +166,144 @@ pub fn lockstep(g: &Grammar, l: &Lock, via_file: Option<&std::path::Path>) -> V 
     V::Ok(outcome)
 }
 
+/// R5 across files: the line of a located single fault (and its neighbours) is moved into an include file; the
+/// diagnostic must then name the include file and the line inside it. Only judged when the diagnostic is of the
+/// same kind as for the flat text (whether an include at that place is transparent is C16's business).
+pub fn lockstep_include(g: &Grammar, l: &Lock, dir: &std::path::Path, whole_element: bool) -> V {
+    if !l.r5 || l.text.contains("IF_DATA") || l.text.contains("A2ML") {
+        return V::Ok("include: not applicable".into());
+    }
+    let Ok(lexed) = vcore::reftok::lex(&l.text) else { return V::Ok("include: not applicable".into()) };
+    let rej = match vcore::interp::recognise(g, &lexed) {
+        Err(rej) if matches!(rej.class, Class::WrongType | Class::IdentForString | Class::BadNumber | Class::BadEnum | Class::UnknownTag | Class::BlockTooNew | Class::EnumTooNew | Class::EndTag | Class::NeedsBlock | Class::NeedsKeyword | Class::BadIdent) => rej,
+        _ => return V::Ok("include: not applicable".into()),
+    };
+    let recoverable = matches!(rej.class, Class::IdentForString | Class::UnknownTag | Class::BlockTooNew | Class::EnumTooNew | Class::EndTag | Class::BadIdent);
+    let Some(fl) = lexed.tokens.get(rej.at).map(|t| t.line) else { return V::Ok("include: not applicable".into()) };
+    let lines: Vec<&str> = l.text.lines().collect();
+    let n = lines.len() as u32;
+    // keep the version line and the last line in the main file
+    let (a, b) = if whole_element {
+        match l.elem_lines {
+            Some((a, b)) => (a.max(2), b.min(n.saturating_sub(1))),
+            None => return V::Ok("include: not applicable".into()),
+        }
+    } else {
+        (fl.max(2), fl.min(n.saturating_sub(1)))
+    };
+    if fl < a || fl > b || lexed.tokens.iter().any(|t| t.line != t.end_line) {
+        return V::Ok("include: not applicable".into());
+    }
+    let mut main = String::new();
+    let mut inc = String::new();
+    for (i, line) in lines.iter().enumerate() {
+        let ln = i as u32 + 1;
+        if ln == a {
+            main.push_str("/include inc.a2l\n");
+        }
+        if ln >= a && ln <= b {
+            inc.push_str(line);
+            inc.push('\n');
+        } else {
+            main.push_str(line);
+            main.push('\n');
+        }
+    }
+    let _ = std::fs::create_dir_all(dir);
+    let mp = dir.join("main.a2l");
+    if std::fs::write(&mp, &main).is_err() || std::fs::write(dir.join("inc.a2l"), &inc).is_err() {
+        return V::Ok("include: scratch not writable".into());
+    }
+    let want_line = fl - a + 1;
+    let flat = |strict: bool| load(&l.text, None, strict);
+    let split = |strict: bool| match vcore::explore::guard(|| a2lfile::load(&mp, None, strict)) {
+        Ok(Ok((f, log))) => Loaded::Ok(f, log),
+        Ok(Err(e)) => Loaded::Err(e),
+        Err(p) => Loaded::Panic(p),
+    };
+    let mut seen = 0;
+    for strict in [true, false] {
+        let (f, s) = (flat(strict), split(strict));
+        if let Loaded::Panic(p) = &s {
+            return V::Viol("panic", p.clone());
+        }
+        let first = |x: &Loaded| -> Option<String> {
+            match x {
+                Loaded::Err(e) => (strict || !recoverable).then(|| format!("{}|{}", variant_of(e), file_line(e).map(|(f, l)| format!("{f}:{l}")).unwrap_or_default())),
+                Loaded::Ok(_, log) => log.iter().find(|e| !is_deprecation(e)).map(|e| format!("{}|{}", variant_of(e), file_line(e).map(|(f, l)| format!("{f}:{l}")).unwrap_or_default())),
+                Loaded::Panic(_) => None,
+            }
+        };
+        let (Some(df), Some(ds)) = (first(&f), first(&s)) else { continue };
+        let (vf, lf) = df.split_once('|').unwrap();
+        let (vs, ls) = ds.split_once('|').unwrap();
+        if vf != vs || lf.is_empty() || ls.is_empty() {
+            continue;
+        }
+        // the flat diagnostic must be the located one, otherwise there is nothing to transfer
+        if lf.rsplit(':').next().and_then(|x| x.parse::<u32>().ok()) != Some(fl) {
+            continue;
+        }
+        seen += 1;
+        let (file, line) = ls.rsplit_once(':').unwrap();
+        if !file.ends_with("inc.a2l") {
+            return V::Viol("R5-file", format!("{}: the fault sits in line {want_line} of inc.a2l, the diagnostic names {ls} ({vs})", if strict { "strict" } else { "non-strict" }));
+        }
+        if line.parse::<u32>().ok() != Some(want_line) {
+            return V::Viol("R5-line", format!("{}: the fault sits in line {want_line} of inc.a2l, the diagnostic names {ls} ({vs})", if strict { "strict" } else { "non-strict" }));
+        }
+    }
+    V::Ok(if seen > 0 { "include: file and line checked".into() } else { "include: diagnostic kind differs from the flat text, not judged".into() })
+}
+
+/// tokens behind /end PROJECT: in the main file and in an include file (directly and nested); the diagnostic must name
+/// the file and line of the first surplus token in both modes
+pub fn trailing_token_cases(g: &Grammar, dir: &std::path::Path) -> Vec<(String, V)> {
+    let mut out = Vec::new();
+    let doc = corpus::carriers(g)[0].doc.text();
+    let _ = std::fs::create_dir_all(dir);
+    for (label, main_tail, files, want_file, want_line) in [
+        ("surplus token in the main file", "\n\nSURPLUS 1\n".to_string(), vec![], "main.a2l", format!("{doc}\n\n").matches('\n').count() as u32 + 1),
+        ("surplus token in an include file", "\n/include tail.a2l\n".to_string(), vec![("tail.a2l", "\n\nSURPLUS 1\n")], "tail.a2l", 3),
+        ("surplus token in a nested include file", "\n/include t1.a2l\n".to_string(), vec![("t1.a2l", "/* c */\n/include t2.a2l\n"), ("t2.a2l", "\nSURPLUS\n")], "t2.a2l", 2),
+    ] {
+        let mp = dir.join("main.a2l");
+        let mut ok = std::fs::write(&mp, format!("{doc}{main_tail}")).is_ok();
+        for (n, c) in &files {
+            ok &= std::fs::write(dir.join(n), c).is_ok();
+        }
+        if !ok {
+            out.push((label.to_string(), V::Ok("trailing: scratch not writable".into())));
+            continue;
+        }
+        let mut verdict = V::Ok("trailing: file and line checked".into());
+        for strict in [true, false] {
+            let r = vcore::explore::guard(|| a2lfile::load(&mp, None, strict));
+            let diag: Option<A2lError> = match r {
+                Err(p) => {
+                    verdict = V::Viol("panic", p);
+                    break;
+                }
+                Ok(Err(e)) => Some(e),
+                Ok(Ok((_, log))) => log.into_iter().next(),
+            };
+            let Some(e) = diag else {
+                verdict = V::Viol("R3-surplus-tokens-unreported", format!("{}: tokens behind /end PROJECT are not reported", if strict { "strict" } else { "non-strict" }));
+                break;
+            };
+            match file_line(&e) {
+                Some((f, l)) if f.ends_with(want_file) && l == want_line => {}
+                other => {
+                    verdict = V::Viol("R5-file", format!("{}: the surplus token is at {want_file}:{want_line}, the diagnostic names {other:?}: {e}", if strict { "strict" } else { "non-strict" }));
+                    break;
+                }
+            }
+        }
+        out.push((label.to_string(), verdict));
+    }
+    out
+}
+
 /// index of the first token of the node at `path` in the token list of `doc`
 pub fn node_token_range(doc: &Doc, path: &[usize]) -> Option<(usize, usize)> {
     // pre-order id of the node
@@ -204,7 +344,8 @@ fn located_faults(g: &Grammar, base: &CDoc) -> Vec<Lock> {
     let mk = |label: &str, class: &str, f: &dyn Fn(&mut Node), fault_tok: usize| -> Lock {
         let mut d = base.doc.clone();
         f(d.root.at_mut(&base.path));
-        Lock { text: render_one_per_line(&d.tokens()), label: format!("{} + {label}", base.label), class: class.to_string(), fault_tok: Some(fault_tok), r5: true }
+        let el = node_token_range(&d, &base.path).map(|(a, b)| (a as u32 + 1, b as u32 + 1));
+        Lock { text: render_one_per_line(&d.tokens()), label: format!("{} + {label}", base.label), class: class.to_string(), fault_tok: Some(fault_tok), r5: true, elem_lines: el }
     };
     for (pi, p) in node.params.iter().enumerate() {
         // only fixed parameters: inside sequences the detection point is where the sequence gives up
@@ -220,7 +361,8 @@ fn located_faults(g: &Grammar, base: &CDoc) -> Vec<Lock> {
         let mut d = base.doc.clone();
         d.root.at_mut(&base.path).end_tag = Some("WRONG_TAG".into());
         let (_, last) = node_token_range(&d, &base.path).unwrap();
-        out.push(Lock { text: render_one_per_line(&d.tokens()), label: format!("{} + wrong-end-tag", base.label), class: "end-tag".into(), fault_tok: Some(last), r5: true });
+        let (first2, _) = node_token_range(&d, &base.path).unwrap();
+        out.push(Lock { text: render_one_per_line(&d.tokens()), label: format!("{} + wrong-end-tag", base.label), class: "end-tag".into(), fault_tok: Some(last), r5: true, elem_lines: Some((first2 as u32 + 1, last as u32 + 1)) });
     }
     if !e.refs.is_empty() {
         // unknown block as first child: its tag is two tokens behind the last parameter
@@ -252,7 +394,7 @@ fn version_faults(g: &Grammar) -> Vec<Lock> {
         }
         let Some((first, _)) = node_token_range(&d2.doc, &d2.path) else { continue };
         let tag_idx = if node.block { first + 1 } else { first };
-        out.push(Lock { text: render_one_per_line(&d2.doc.tokens()), label: format!("{} @v{} (too new)", d.label, vmin - 1), class: "block-too-new".into(), fault_tok: Some(tag_idx), r5: true });
+        out.push(Lock { text: render_one_per_line(&d2.doc.tokens()), label: format!("{} @v{} (too new)", d.label, vmin - 1), class: "block-too-new".into(), fault_tok: Some(tag_idx), r5: true, elem_lines: node_token_range(&d2.doc, &d2.path).map(|(a, b)| (a as u32 + 1, b as u32 + 1)) });
     }
     out
 }
@@ -290,12 +432,13 @@ fn token_mutations(g: &Grammar, thorough: bool) -> Vec<Lock> {
                     fault_tok: None,
                     // blind token mutations cascade; "the" detection token is not well defined
                     r5: false,
+                    elem_lines: None,
                 });
             }
         }
         // truncation at every token boundary
         for ti in 1..toks.len() {
-            out.push(Lock { text: render(&toks[..ti], &std::collections::HashMap::new()), label: format!("{} + truncate(token {ti})", d.label), class: "truncate".into(), fault_tok: None, r5: false });
+            out.push(Lock { text: render(&toks[..ti], &std::collections::HashMap::new()), label: format!("{} + truncate(token {ti})", d.label), class: "truncate".into(), fault_tok: None, r5: false, elem_lines: None });
         }
     }
     out
@@ -305,7 +448,7 @@ pub fn build(g: &Grammar, thorough: bool) -> Vec<Lock> {
     let mut out = Vec::new();
     for c in c04::build_space(g, thorough) {
         let cls = if c.label.contains(" + ") { c.label.rsplit(" + ").next().unwrap_or("").split('(').next().unwrap_or("").to_string() } else { "valid-or-version".to_string() };
-        out.push(Lock { text: c.doc.text(), label: c.label, class: cls, fault_tok: None, r5: true });
+        out.push(Lock { text: c.doc.text(), label: c.label, class: cls, fault_tok: None, r5: true, elem_lines: None });
     }
     let mut base = corpus::carriers(g);
     base.extend(corpus::opt_docs(g, 1));
@@ -314,13 +457,22 @@ pub fn build(g: &Grammar, thorough: bool) -> Vec<Lock> {
     }
     out.extend(version_faults(g));
     out.extend(token_mutations(g, thorough));
+    // IF_DATA described by an in-file A2ML definition: the conforming instances and every deviation of the C18 space
+    // (R1, R2 and - when non-strict loading is silent - R4 apply to IF_DATA as well)
+    for plan in crate::c18::plans(false) {
+        let (jobs, _) = crate::c18::jobs_for(&plan, thorough);
+        for j in jobs.into_iter().filter(|j| j.mode == 0) {
+            let payload = vcore::a2mlref::render_payload(&j.payload);
+            out.push(Lock { text: vcore::ifdoc::doc_text(Some(&j.def_text), &[payload]), label: format!("IF_DATA under [{}]: {}", j.def_text.replace('\n', " "), j.kind), class: format!("ifdata-a2ml-{}", j.kind), fault_tok: None, r5: false, elem_lines: None });
+        }
+    }
     if thorough {
         // two faults: every pair of single deviations of the element under test, on all carriers
         for b in corpus::carriers(g) {
             let devs = corpus::deviations(g, &b);
             for d1 in &devs {
                 for d2 in corpus::deviations(g, d1) {
-                    out.push(Lock { text: d2.doc.text(), label: d2.label.clone(), class: "two-faults".into(), fault_tok: None, r5: false });
+                    out.push(Lock { text: d2.doc.text(), label: d2.label.clone(), class: "two-faults".into(), fault_tok: None, r5: false, elem_lines: None });
                 }
             }
         }
@@ -331,7 +483,8 @@ pub fn build(g: &Grammar, thorough: bool) -> Vec<Lock> {
 pub fn run(tier: &str) -> Run {
     let mut run = Run::new("C06", tier);
     let g = corpus::grammar();
-    let cases = build(&g, tier == "thorough");
+    let thorough = tier == "thorough";
+    let cases = build(&g, thorough);
     let scratch = {
         let base = if std::path::Path::new("/dev/shm").is_dir() { "/dev/shm".to_string() } else { std::env::temp_dir().to_string_lossy().into_owned() };
         let d = std::path::PathBuf::from(base).join(format!("verif-c06-{}", std::process::id()));
@@ -352,15 +505,54 @@ pub fn run(tier: &str) -> Run {
             } else {
                 None
             };
-            (fnv1a(cases[i].text.as_bytes()), v, v2)
+            // every 5th (thorough: every) located fault also with its line, and with its line and both neighbours, in an include file
+            let mut v3 = Vec::new();
+            if cases[i].fault_tok.is_some() && (thorough || i % 5 == 0) {
+                use std::hash::{Hash, Hasher};
+                let mut h = std::collections::hash_map::DefaultHasher::new();
+                std::thread::current().id().hash(&mut h);
+                let d = scratch.join(format!("inc{}", h.finish() % 4096));
+                v3.push(lockstep_include(&g, &cases[i], &d, false));
+                v3.push(lockstep_include(&g, &cases[i], &d, true));
+            }
+            (fnv1a(cases[i].text.as_bytes()), v, v2, v3)
         },
         &|i| {
             println!("MACHINERY-ERROR: C06 case hangs: {}", cases[i].label);
             std::process::exit(2);
         },
     );
+    for (label, v) in trailing_token_cases(&g, &scratch.join("trailing")) {
+        run.evaluations += 1;
+        run.transitions += 2;
+        match v {
+            V::Ok(o) => run.outcome(&o),
+            V::Viol(o, w) => {
+                let key = if o == "panic" { format!("C06/panic {}", vcore::explore::panic_key(&w)) } else { format!("C06/{o}/trailing:{label}") };
+                run.violation(key, format!("{label}: {w}"), json!({"trailing": label}));
+            }
+        }
+    }
     let _ = std::fs::remove_dir_all(&scratch);
-    for (i, (h, v, v2)) in res.into_iter().enumerate() {
+    for (i, (h, v, v2, v3)) in res.into_iter().enumerate() {
+        for (k, v) in v3.into_iter().enumerate() {
+            run.evaluations += 1;
+            run.transitions += 4;
+            match v {
+                V::Ok(o) => run.outcome(&o),
+                V::Viol(o, w) => {
+                    // k == 0: only the line of the faulty token is in the include file, its element begins in the main file
+                    let key = if o == "panic" {
+                        format!("C06/panic {}", vcore::explore::panic_key(&w))
+                    } else if k == 0 && o == "R5-file" {
+                        "C06/R5-file/include-inside-an-element-of-another-file".to_string()
+                    } else {
+                        format!("C06/{o}/include-{}:{}", if k == 0 { "token" } else { "element" }, cases[i].class)
+                    };
+                    run.violation(key, format!("{} ({} in an include file): {w}", cases[i].label, if k == 0 { "the faulty token alone" } else { "the whole element" }), json!({"text": cases[i].text, "label": cases[i].label, "class": cases[i].class, "fault_tok": cases[i].fault_tok, "r5": cases[i].r5, "elem_lines": cases[i].elem_lines.map(|(a, b)| vec![a, b]), "include_whole_element": k == 1}));
+                }
+            }
+        }
         for (vi, v) in [Some(v), v2].into_iter().flatten().enumerate() {
             run.evaluations += 1;
             run.transitions += 2;
@@ -387,7 +579,9 @@ pub fn run(tier: &str) -> Run {
     run.require("strict-err,lax-ok", 1000);
     run.require("strict-err,lax-ok,line-checked", 300);
     run.require("both-err,line-checked", 300);
-    run.rule = "lockstep of strict and non-strict load on: the C04 space (valid documents x 6 versions, single deviations), located single faults rendered one token per line (wrong lexical class at every fixed parameter, bad enum item, malformed number, block form, wrong end tag, unknown block, element newer than the file version), every token deletion/duplication/swap and truncation of every carrier; thorough adds all pairs of deviations. Relations R1..R5 of DESIGN.md; every 7th located fault also through load(file) to check the file name. distinct = distinct text; non-trivial = at least one mode reports something".into();
+    run.require("include: file and line checked", 200);
+    run.require("trailing: file and line checked", 3);
+    run.rule = "lockstep of strict and non-strict load on: the C04 space (valid documents x 6 versions, single deviations), located single faults rendered one token per line (wrong lexical class at every fixed parameter, bad enum item, malformed number, block form, wrong end tag, unknown block, element newer than the file version), every token deletion/duplication/swap and truncation of every carrier; thorough adds all pairs of deviations; IF_DATA under an in-file A2ML definition: every conforming instance and every deviation of the C18 space for definitions of depth <= 2 (R1, R2, R4 when non-strict loading is silent). Relations R1..R5 of DESIGN.md; every 7th located fault also through load(file) to check the file name; every 5th (thorough: every) located fault with (a) the whole element under test and (b) only the line of the faulty token moved to an include file: the diagnostic must name that file and the line inside it; surplus tokens behind /end PROJECT in the main file, an include file and a nested include file. distinct = distinct text; non-trivial = at least one mode reports something".into();
     run
 }
 
@@ -398,10 +592,30 @@ pub fn replay(v: &Value) -> Result<String, String> {
         class: v["class"].as_str().unwrap_or("").into(),
         fault_tok: v["fault_tok"].as_u64().map(|x| x as usize),
         r5: v["r5"].as_bool().unwrap_or(true),
+        elem_lines: v["elem_lines"].as_array().and_then(|a| Some((a.first()?.as_u64()? as u32, a.get(1)?.as_u64()? as u32))),
     };
     let g = corpus::grammar();
     let p = std::env::temp_dir().join(format!("verif-c06-replay-{}.a2l", std::process::id()));
-    let r = if v["via_file"].as_bool().unwrap_or(false) { lockstep(&g, &l, Some(&p)) } else { lockstep(&g, &l, None) };
+    if let Some(label) = v["trailing"].as_str() {
+        let d = std::env::temp_dir().join(format!("verif-c06-replay-{}", std::process::id()));
+        let r = trailing_token_cases(&g, &d).into_iter().find(|(l, _)| l == label);
+        let _ = std::fs::remove_dir_all(&d);
+        return match r {
+            Some((_, V::Viol(o, w))) => Err(format!("{o}: {w}")),
+            Some((_, V::Ok(o))) => Ok(o),
+            None => Err("unknown trailing case".into()),
+        };
+    }
+    let r = if let Some(k) = v["include_whole_element"].as_bool() {
+        let d = std::env::temp_dir().join(format!("verif-c06-replay-{}", std::process::id()));
+        let r = lockstep_include(&g, &l, &d, k);
+        let _ = std::fs::remove_dir_all(&d);
+        r
+    } else if v["via_file"].as_bool().unwrap_or(false) {
+        lockstep(&g, &l, Some(&p))
+    } else {
+        lockstep(&g, &l, None)
+    };
     let _ = std::fs::remove_file(&p);
     match r {
         V::Ok(o) => Ok(o),
